@@ -114,10 +114,8 @@ static void hwv_install_handlers(void) {
 int __lsan_do_recoverable_leak_check(void) __attribute__((weak));
 const char *__asan_default_options(void);
 const char *__asan_default_options(void) {
-  const char *e = getenv("HWV_LEAKCHECK");
-  if (e && *e == '1')
-    return "abort_on_error=1:detect_leaks=1:leak_check_at_exit=0:allocator_may_return_null=1:handle_abort=0:handle_segv=0:handle_sigbus=0:handle_sigfpe=0:detect_stack_use_after_return=0";
-  return "abort_on_error=1:detect_leaks=0:allocator_may_return_null=1:handle_abort=0:handle_segv=0:handle_sigbus=0:handle_sigfpe=0:detect_stack_use_after_return=0";
+  /* getenv() is not usable this early: leak detection is always armed, never run at exit, and consulted only under HWV_LEAKCHECK=1 */
+  return "abort_on_error=1:detect_leaks=1:leak_check_at_exit=0:allocator_may_return_null=1:handle_abort=0:handle_segv=0:handle_sigbus=0:handle_sigfpe=0:detect_stack_use_after_return=0";
 }
 const char *__ubsan_default_options(void);
 const char *__ubsan_default_options(void) { return "abort_on_error=1:print_stacktrace=1"; }
